@@ -522,6 +522,19 @@ func TestPruneProbe(t *testing.T) {
 	o, _ := pruner.OldestRetainedBlock(w.raw)
 	out.Stats["FixPruneAtomicFloor"] = o > 0
 	out.Stats["probe"] = res.String()
+	if o == 0 {
+		// the directed replay of H12: restart and read the state the re-seeded floor serves
+		what := "chain 0..6, L1 head 4, Retained 0, one batch per block, crash after the first batch of the prune up to 4, restart"
+		if err := w.restart(); err == nil {
+			for _, v := range w.evaluate(-1, true) {
+				if strings.HasPrefix(v.sym, "state-by-number:wrong-value") {
+					what += ": " + v.detail
+				}
+			}
+		}
+		key := "prune-crash:floor-reseed-below-deleted-history"
+		out.Diverge(vh.Divergence{Key: key, What: "[" + key + "] directed replay: " + what, Input: vh.J{"probe": "FixPruneAtomicFloor"}})
+	}
 	out.Done(1, 1)
 }
 
